@@ -28,6 +28,7 @@ const (
 	fQuotedTrailingBackslash
 	fQuotedSemi
 	fQuotedSpace
+	fQuotedSlash
 	fUpperParamName
 	fEmptyElement
 	fOfferExt
@@ -42,13 +43,13 @@ var featName = [nFeat]string{
 	"htab-as-ows", "ows-between-weight-and-comma", "ows-before-comma", "ows-after-comma",
 	"ows-before-semicolon", "ows-after-semicolon", "uppercase-Q-weight", "weight-with-trailing-zeros",
 	"weight-with-trailing-dot", "quoted-token-value", "comma-in-quoted-value", "escaped-dquote-in-quoted-value",
-	"escaped-backslash-in-quoted-value", "quoted-value-ending-in-escaped-backslash", "semicolon-in-quoted-value", "space-in-quoted-value",
+	"escaped-backslash-in-quoted-value", "quoted-value-ending-in-escaped-backslash", "semicolon-in-quoted-value", "space-in-quoted-value", "slash-or-equals-in-quoted-value",
 	"uppercase-parameter-name", "empty-list-element", "offer-as-extension", "offer-space-after-semicolon",
 	"offer-quoted-token-value", "offer-uppercase", "offer-empty-string",
 }
 
 var combinationOrder = [nFeat]int{fQuotedTrailingBackslash, fQuotedDquote, fQuotedBackslash, fHtab, fUpperQ, fQDot, fQLong, fOwsAfterWeight,
-	fQuotedComma, fQuotedSemi, fQuotedSpace, fQuotedToken, fUpperParamName, fOwsBeforeComma, fOwsBeforeSemi,
+	fQuotedComma, fQuotedSemi, fQuotedSlash, fQuotedSpace, fQuotedToken, fUpperParamName, fOwsBeforeComma, fOwsBeforeSemi,
 	fOwsAfterSemi, fOwsAfterComma, fOfferExt, fOfferSpace, fOfferQuoted, fOfferCase, fOfferEmpty, fEmptyElement}
 
 type fset uint32
@@ -69,6 +70,8 @@ func valueClass(v string) int {
 		return fQuotedComma
 	case strings.Contains(v, ";"):
 		return fQuotedSemi
+	case strings.ContainsAny(v, "/=:"):
+		return fQuotedSlash
 	}
 	return fQuotedSpace
 }
@@ -198,15 +201,19 @@ func build(k int, h []rng, offers []offer, keep fset) ([]rng, []offer, fset) {
 		}
 		if o.ext {
 			present |= 1 << fOfferExt
-			if m := mimeOfExt(o.text); m != "" && !keep.has(fOfferExt) {
-				t := strings.SplitN(m, "/", 2)
-				o = offer{typ: t[0], sub: t[1]}
-				renderOffer(&o, nil)
+			name := o.extName
+			if name == "" {
+				name = o.text
 			}
-			os = append(os, o)
-			continue
+			if m := mimeOfExt(name); m != "" && !keep.has(fOfferExt) {
+				t := strings.SplitN(m, "/", 2)
+				o.ext, o.extName, o.typ, o.sub = false, "", t[0], t[1]
+			} else if o.extName == "" {
+				os = append(os, o)
+				continue
+			}
 		}
-		if k != kMedia || o.typ == "" {
+		if k != kMedia || (o.typ == "" && o.extName == "") {
 			os = append(os, o)
 			continue
 		}
